@@ -54,6 +54,7 @@ let z_of_decimal (s : string) : z =
   let body = if neg then String.sub s 1 (String.length s - 1) else s in
   match pos_of_decimal body with None -> Z0 | Some p -> if neg then Zneg p else Zpos p
 
+let rec unbounded_fuel : nat = S unbounded_fuel
 let lit_str (s : string) : n list = List.init (String.length s) (fun i -> n_of_int (Char.code s.[i]))
 let str_of_arg (a : string) : n list =
   if a = "-" then []
@@ -190,7 +191,9 @@ let run (op : string) (args : string list) : string =
        | Val _ -> "OK" | Fail EAlternate -> "E:Alternate" | Fail EDewey -> "E:Dewey" | Fail EGlob -> "E:Glob"
        | Panic k -> "PANIC" ^ string_of_int (int_of_nat k) | OutOfFuel -> "FUEL")
   | "pat.match", [p; name] ->
-      (match pm (str_of_arg p) (str_of_arg name) with
+      (* the transcription of the code's work-list loop, with unbounded iterations (a cyclic nat: every S is followed
+         by another one); C04_worklist_refines: whenever it answers, it answers what the recursive description pm says *)
+      (match pm_w unbounded_fuel (str_of_arg p) (str_of_arg name) with
        | MErr _ -> "E" | MBool b -> bool_obs b | MPanic -> "PANIC" | MFuel -> "FUEL")
   | "pat.best", [p; a; b] ->
       let ps = str_of_arg p in
